@@ -4,6 +4,38 @@
 package store
 
 //@ -- ------------------------------------------------------------------
+//@ -- C14 at the store level.  Ghost counter fswrites(): number of calls into package os that can create, modify or
+//@ -- delete something.  Ghost constants of one server instance: roPtr() is the read-only switch of its configuration,
+//@ -- fsWritable() says whether its store may write the file system (a directory store that is not read-only).
+//@ ghost func roPtr() *bool
+//@ ghost func fsWritable() bool
+
+//@ -- every function of the package: without write permission nothing is written
+//@ funcs *
+//@   props C14
+//@   maintains [fs-policy]{C14} !fsWritable() ==> fswrites() == old(fswrites())
+
+//@ -- objects of the memory store live in a store without write permission (object invariant, assumed where a
+//@ -- method is entered through the interface; NewMem is where it is fixed)
+//@ funcs mem.* memRepo.* memRepoUpload.* NewMem
+//@   props C14
+//@   requires invariant [mem-store-has-no-write-permission] !fsWritable()
+//@   maintains [mem-never-writes-fs]{C14} fswrites() == old(fswrites())
+
+//@ -- objects of the directory store carry the configuration of their store (object invariant; dir.RepoGet establishes it
+//@ -- for the repositories it creates); write permission is the negation of the read-only switch
+//@ funcs dir.* dirRepo.*
+//@   props C14
+//@   requires invariant [dir-store-conf] recv.conf.Storage.ReadOnly == roPtr() && roPtr() != nil && (fsWritable() <==> !*roPtr())
+//@   maintains [ro-switch-stable] *roPtr() == old(*roPtr())
+
+//@ -- an upload session of the directory store exists only in a store with write permission: BlobCreate, the only
+//@ -- place that builds one, refuses read-only stores first (asserted there)
+//@ funcs dirRepoUpload.*
+//@   props C14
+//@   requires invariant [upload-only-in-writable-store] fsWritable()
+
+//@ -- ------------------------------------------------------------------
 //@ -- Interface contracts of the store, as seen by the HTTP handlers (assumed for callers; the
 //@ -- implementations in dir.go / mem.go are verified against their own contracts where stated).
 //@ -- Ghost model: the repository a value stands for, and a counter of successful mutations.
@@ -11,20 +43,26 @@ package store
 //@ model Repo { name string; blobs set[digest.Digest] }
 //@ -- an upload session: the repository it belongs to, and a counter of state-changing calls (Write, Verify, Close, Cancel, ChangeAlgorithm)
 //@ model BlobCreator { repo string; written int; gone bool; size int }
+//@ -- a reader handed out by BlobGet reads the blob stored under the digest it was asked for (C01: what the store keeps
+//@ -- under a digest hashes to it is the store's own obligation, see the upload objects)
+//@ model ReadSeekCloser { of digest.Digest }
 
 //@ iface (st Store) RepoGet(ctx context.Context, repoStr string) (repo Repo, err error)
 //@   -- only names of the repository grammar reach the store (C16); the empty name is excluded by the path split, which is not modelled
 //@   requires [name-valid]{C16} repoStr == "" || re_rePath(repoStr)
-//@   modifies ghost(fault), alloc
+//@   modifies ghost(fault), alloc, ghost(fswrites)
+//@   ensures [fs-policy]{C14} !fsWritable() ==> fswrites() == old(fswrites())
 //@   ensures [ok] err == nil ==> repo != nil && repo.name == repoStr
 //@   ensures [err] err != nil ==> repo == nil && (errIs(err, types.ErrRepoNotAllowed) || fault())
 //@   ensures [fault-monotone] old(fault()) ==> fault()
 
 //@ iface (repo Repo) Done()
-//@   modifies alloc
+//@   modifies alloc, ghost(fswrites)
+//@   ensures [fs-policy]{C14} !fsWritable() ==> fswrites() == old(fswrites())
 
 //@ iface (repo Repo) IndexGet() (index types.Index, err error)
-//@   modifies ghost(fault), alloc
+//@   modifies ghost(fault), alloc, ghost(fswrites)
+//@   ensures [fs-policy]{C14} !fsWritable() ==> fswrites() == old(fswrites())
 //@   ensures [err] err != nil ==> fault()
 //@   ensures [fault-monotone] old(fault()) ==> fault()
 //@   ensures [wf] err == nil ==> types.wfW1(index) && types.wfW2(index) && types.wfW7(index)
@@ -35,74 +73,87 @@ package store
 //@ iface (repo Repo) IndexInsert(desc types.Descriptor, opts []types.IndexOpt) (err error)
 //@   -- the content an index entry points to is stored first (C09): the last BlobCreate reported "exists" or the last Close succeeded
 //@   requires [blob-before-index]{C09} blobReady()
-//@   modifies ghost(fault), ghost(mutations), alloc
+//@   modifies ghost(fault), ghost(mutations), alloc, ghost(fswrites)
+//@   ensures [fs-policy]{C14} !fsWritable() ==> fswrites() == old(fswrites())
 //@   ensures [ok] err == nil ==> mutations() == old(mutations()) + 1
 //@   ensures [err] err != nil ==> mutations() == old(mutations()) && fault()
 //@   ensures [fault-monotone] old(fault()) ==> fault()
 
 //@ iface (repo Repo) IndexRemove(desc types.Descriptor) (err error)
-//@   modifies ghost(fault), ghost(mutations), alloc
+//@   modifies ghost(fault), ghost(mutations), alloc, ghost(fswrites)
+//@   ensures [fs-policy]{C14} !fsWritable() ==> fswrites() == old(fswrites())
 //@   ensures [ok] err == nil ==> mutations() == old(mutations()) + 1
 //@   ensures [err] err != nil ==> mutations() == old(mutations()) && fault()
 //@   ensures [fault-monotone] old(fault()) ==> fault()
 
 //@ iface (repo Repo) BlobGet(d digest.Digest) (rdr io.ReadSeekCloser, err error)
-//@   modifies ghost(fault), alloc
-//@   ensures [ok] err == nil ==> rdr != nil && (d in repo.blobs)
+//@   modifies ghost(fault), alloc, ghost(fswrites)
+//@   ensures [fs-policy]{C14} !fsWritable() ==> fswrites() == old(fswrites())
+//@   ensures [ok] err == nil ==> rdr != nil && (d in repo.blobs) && rdr.of == d
 //@   ensures [err] err != nil ==> rdr == nil && (!digestOK(d) || errIs(err, types.ErrNotFound) || fault())
 //@   ensures [missing] err != nil && !fault() ==> !(d in repo.blobs)
 //@   ensures [fault-monotone] old(fault()) ==> fault()
 
 //@ iface (repo Repo) BlobCreate(opts []BlobOpt) (bc BlobCreator, sessionID string, err error)
-//@   modifies ghost(fault), ghost(blobReady), alloc
+//@   modifies ghost(fault), ghost(blobReady), alloc, ghost(fswrites)
+//@   ensures [fs-policy]{C14} !fsWritable() ==> fswrites() == old(fswrites())
 //@   ensures [ok] err == nil ==> bc != nil && bc.repo == repo.name && bc.written == 0 && !bc.gone && !blobReady()
 //@   ensures [err] err != nil ==> bc == nil && (errIs(err, types.ErrBlobExists) || fault()) && (blobReady() <==> errIs(err, types.ErrBlobExists))
 //@   ensures [fault-monotone] old(fault()) ==> fault()
 
 //@ iface (repo Repo) BlobDelete(d digest.Digest) (err error)
-//@   modifies ghost(fault), ghost(mutations), alloc, Repo.blobs
+//@   modifies ghost(fault), ghost(mutations), alloc, Repo.blobs, ghost(fswrites)
+//@   ensures [fs-policy]{C14} !fsWritable() ==> fswrites() == old(fswrites())
 //@   ensures [ok] err == nil ==> mutations() == old(mutations()) + 1 && !(d in repo.blobs)
 //@   ensures [err] err != nil ==> mutations() == old(mutations()) && (errIs(err, types.ErrNotFound) || fault())
 //@   ensures [fault-monotone] old(fault()) ==> fault()
 
 //@ iface (repo Repo) BlobSession(sessionID string) (bc BlobCreator, err error)
-//@   modifies alloc
+//@   modifies alloc, ghost(fswrites)
+//@   ensures [fs-policy]{C14} !fsWritable() ==> fswrites() == old(fswrites())
 //@   ensures [ok] err == nil ==> bc != nil && bc.repo == repo.name && !bc.gone
 //@   ensures [err] err != nil ==> bc == nil
 
 //@ iface (bc BlobCreator) Write(p []byte) (n int, err error)
-//@   modifies ghost(fault), alloc, BlobCreator.written, BlobCreator.size
+//@   modifies ghost(fault), alloc, BlobCreator.written, BlobCreator.size, ghost(fswrites)
+//@   ensures [fs-policy]{C14} !fsWritable() ==> fswrites() == old(fswrites())
 //@   ensures [counted] bc.written == old(bc.written) + 1 && bc.size >= old(bc.size)
 //@   ensures [err] err != nil ==> fault()
 //@   ensures [fault-monotone] old(fault()) ==> fault()
 
 //@ iface (bc BlobCreator) Close() (err error)
-//@   modifies ghost(fault), ghost(mutations), ghost(blobReady), alloc, BlobCreator.written, BlobCreator.gone, Repo.blobs
+//@   modifies ghost(fault), ghost(mutations), ghost(blobReady), alloc, BlobCreator.written, BlobCreator.gone, Repo.blobs, ghost(fswrites)
+//@   ensures [fs-policy]{C14} !fsWritable() ==> fswrites() == old(fswrites())
 //@   ensures [counted] bc.written == old(bc.written) + 1
 //@   ensures [ok] err == nil ==> bc.gone && blobReady() && mutations() == old(mutations()) + 1
 //@   ensures [err] err != nil ==> fault() && mutations() == old(mutations())
 //@   ensures [fault-monotone] old(fault()) ==> fault()
 
 //@ iface (bc BlobCreator) Cancel() (err error)
-//@   modifies ghost(fault), alloc, BlobCreator.written, BlobCreator.gone
+//@   modifies ghost(fault), alloc, BlobCreator.written, BlobCreator.gone, ghost(fswrites)
+//@   ensures [fs-policy]{C14} !fsWritable() ==> fswrites() == old(fswrites())
 //@   ensures [counted] bc.written == old(bc.written) + 1
 //@   ensures [ok] err == nil ==> bc.gone
 //@   ensures [err] err != nil ==> fault()
 //@   ensures [fault-monotone] old(fault()) ==> fault()
 
 //@ iface (bc BlobCreator) Size() (n int64)
-//@   modifies alloc
+//@   modifies alloc, ghost(fswrites)
+//@   ensures [fs-policy]{C14} !fsWritable() ==> fswrites() == old(fswrites())
 //@   ensures [size] n >= 0 && n == bc.size
 
 //@ iface (bc BlobCreator) Digest() (d digest.Digest)
-//@   modifies alloc
+//@   modifies alloc, ghost(fswrites)
+//@   ensures [fs-policy]{C14} !fsWritable() ==> fswrites() == old(fswrites())
 
 //@ iface (bc BlobCreator) Verify(d digest.Digest) (err error)
-//@   modifies alloc, BlobCreator.written
+//@   modifies alloc, BlobCreator.written, ghost(fswrites)
+//@   ensures [fs-policy]{C14} !fsWritable() ==> fswrites() == old(fswrites())
 //@   ensures [counted] bc.written == old(bc.written) + 1
 
 //@ iface (bc BlobCreator) ChangeAlgorithm(a digest.Algorithm) (err error)
-//@   modifies alloc
+//@   modifies alloc, ghost(fswrites)
+//@   ensures [fs-policy]{C14} !fsWritable() ==> fswrites() == old(fswrites())
 
 //@ func referrerListDedup(rl []types.Descriptor) (res []types.Descriptor)
 //@   props C17
@@ -121,3 +172,53 @@ package store
 //@   loop 1: invariant [nothing-invented] forall b: int :: 0 <= b && b < len(rl) ==>
 //@             (exists a: int :: 0 <= a && a < len(old(rl)) && rl[b] == old(rl[a]))
 //@   loop 1: decreases len(rl) - i
+
+
+//@ -- internal methods of the Repo interface, as used by the shared code (index ingest, garbage collection)
+//@ iface (repo Repo) blobGet(d digest.Digest, locked bool) (rdr io.ReadSeekCloser, err error)
+//@   modifies ghost(fault), alloc, ghost(fswrites)
+//@   ensures [fs-policy]{C14} !fsWritable() ==> fswrites() == old(fswrites())
+//@   ensures [ok] err == nil ==> rdr != nil
+//@   ensures [err] err != nil ==> rdr == nil
+
+//@ iface (repo Repo) blobMeta(d digest.Digest, locked bool) (m blobMeta, err error)
+//@   modifies ghost(fault), alloc, ghost(fswrites)
+//@   ensures [fs-policy]{C14} !fsWritable() ==> fswrites() == old(fswrites())
+
+//@ iface (repo Repo) blobList(locked bool) (dl []digest.Digest, err error)
+//@   modifies ghost(fault), alloc, ghost(fswrites)
+//@   ensures [fs-policy]{C14} !fsWritable() ==> fswrites() == old(fswrites())
+
+//@ iface (repo Repo) blobDelete(d digest.Digest, locked bool) (err error)
+//@   modifies ghost(fault), ghost(mutations), alloc, ghost(fswrites), Repo.blobs
+//@   ensures [fs-policy]{C14} !fsWritable() ==> fswrites() == old(fswrites())
+
+//@ -- options are applied to the structure they are given and nothing else
+//@ callback BlobOpt(bc *blobConfig) (err error)
+//@   modifies field(blobConfig.algo), field(blobConfig.expect), alloc
+
+//@ callback Opts(sc *storeConf)
+//@   modifies field(storeConf.log), alloc
+
+//@ -- functions of the directory store that write without looking at the switch themselves: their callers must have
+//@ func (dr *dirRepo) gc() (err error)
+//@   requires [not-read-only]{C14} !*roPtr()
+
+//@ func (dr *dirRepo) gc$3() (err error)
+//@   requires [not-read-only]{C14} fsWritable()
+
+//@ func (dr *dirRepo) repoInit(locked bool) (err error)
+//@   requires [not-read-only]{C14} !*roPtr()
+
+//@ func (d *dir) gc(cur time.Time, prev time.Time) (err error)
+//@   requires [not-read-only]{C14} !*roPtr()
+
+//@ func (d *dir) gcTicker()
+//@   requires [not-read-only]{C14} !*roPtr()
+
+//@ -- the cleanup of a cached repository: collection only when the store is writable
+//@ func NewDir$1(key string, dr *dirRepo) (err error)
+//@   requires invariant [dir-store-conf] dr != nil && dr.conf.Storage.ReadOnly == roPtr() && roPtr() != nil && (fsWritable() <==> !*roPtr())
+
+//@ func NewDir(conf config.Config, opts []Opts) (st Store)
+//@   requires invariant [dir-store-conf] conf.Storage.ReadOnly == roPtr() && roPtr() != nil && (fsWritable() <==> !*roPtr())
